@@ -3,6 +3,7 @@ package seq
 
 import (
 	"fmt"
+	"time"
 
 	"github.com/hashicorp/raft"
 	"pgregory.net/rapid"
@@ -130,7 +131,9 @@ func genEntry(t *rapid.T, maxSize int) kit.EntrySpec {
 	return e
 }
 
-var startChoices = []uint64{0, 1, 2, 3, 10, 1000, 1 << 40}
+// refmodel.StartCont (continue after the highest index ever held, as raft does after a compaction
+// emptied the log) is weighted up; 2^63-2 and 2^63 put the top bit of the index in play.
+var startChoices = []uint64{0, 1, 2, 3, 10, 1000, 1 << 40, 1<<63 - 2, 1 << 63, refmodel.StartCont, refmodel.StartCont, refmodel.StartCont}
 
 func genAppend(t *rapid.T, maxBatch, maxSize int) Op {
 	n := rapid.IntRange(1, maxBatch).Draw(t, "n")
@@ -150,7 +153,7 @@ func genOp(t *rapid.T, maxSize int) Op {
 	case k < 52:
 		op := genAppend(t, 3, maxSize)
 		op.Kind = "bad"
-		op.Bad = rapid.SampledFrom([]string{"gap", "overlap", "nonconsec", "below", "emptygap"}).Draw(t, "bad")
+		op.Bad = rapid.SampledFrom([]string{"gap", "overlap", "nonconsec", "below", "emptygap", "badtime"}).Draw(t, "bad")
 		return op
 	case k < 72:
 		return Op{Kind: "del", Min: genPos(t, "min"), Max: genPos(t, "max")}
@@ -164,13 +167,7 @@ func genOp(t *rapid.T, maxSize int) Op {
 // resolveAppend builds the batch for an append op against the model. gen is
 // the generation counter used to vary content of re-appended indexes.
 func resolveAppend(op Op, m *refmodel.LogModel, gen uint8) []*raft.Log {
-	start := m.Last + 1
-	if m.Empty() {
-		start = op.Start
-		if start == 0 {
-			start = 1
-		}
-	}
+	start := m.ResolveStart(op.Start)
 	logs := make([]*raft.Log, len(op.Entries))
 	for i, e := range op.Entries {
 		logs[i] = e.Make(start+uint64(i), gen)
@@ -206,22 +203,24 @@ func resolveBad(op Op, m *refmodel.LogModel, gen uint8) ([]*raft.Log, bool) {
 		}
 		return mk(m.First - 1), true
 	case "nonconsec":
-		s := m.Last + 1
-		if m.Empty() {
-			s = op.Start
-			if s == 0 {
-				s = 1
-			}
-		}
+		s := m.ResolveStart(op.Start)
 		return mk(s, s+2), true
+	case "badtime":
+		// a contiguous batch whose last entry cannot be encoded: the standard library refuses
+		// to marshal a time whose zone offset is -1 minute. The call must fail and change nothing.
+		s := m.ResolveStart(op.Start)
+		idxs := make([]uint64, len(es))
+		for i := range idxs {
+			idxs[i] = s + uint64(i)
+		}
+		logs := mk(idxs...)
+		logs[len(logs)-1].AppendedAt = time.Unix(1700000000, 5).In(time.FixedZone("minus-one-minute", -60))
+		return logs, true
 	case "emptygap":
 		if !m.Empty() {
 			return mk(m.Last+1, m.Last+2, m.Last+4), true
 		}
-		s := op.Start
-		if s == 0 {
-			s = 5
-		}
+		s := m.ResolveStart(op.Start)
 		return mk(s, s+1, s+3), true
 	}
 	return nil, false
